@@ -68,7 +68,10 @@ def step (args : List String) : String :=
       | some [b, l, e] =>
         match blockPartitioning b l e with
         | .error _ => "PANIC"
-        | .ok (_, _, _, n) => s!"ok {reconstructB l e n} {n}"
+        | .ok (aL, _, _, n) =>
+          -- FileDesc::new: the block count must fit the Z field (u8 RaptorQ / u16 Raptor) and a block the code's K_max
+          if (rqp = "rq" ∧ (n > 255 ∨ aL > 56403)) ∨ (rqp = "rp" ∧ (n > 65535 ∨ aL > 8192)) then "ERR"
+          else s!"ok {reconstructB l e n} {max n 1}"
       | _ => "bad-op"
     else if rqp = "snd" then
       match nats? [b, l, e] with
